@@ -19,6 +19,25 @@ def run(chk):
     # the allocation table rows (size, road-block offset) describe the manager types the variants reset and the kernels take: on
     # re-attach the road blocks are stamped again at the table's offsets, into live manager state if a row names the wrong type
     inits.rule_reset(chk, P, 'P4.')
+    # P5: the architecture a variant records for re-attachment is its own
+    p5 = chk.rule('P5', 'each variant init records its own architecture in used_arch (imb_set_pointers_mb_mgr dispatches on it when re-attaching)', floor=9)
+    for tu in P.variant_tus():
+        m = inits.VARIANT_RE.match(tu)
+        if not m:
+            continue
+        arch = m.group(1)
+        f = inits.init_func(P, tu)
+        want = P.enum('IMB_ARCH_' + arch.upper())
+        n = 0
+        for b, i, ev in f.events(('assign',)):
+            l = cf.strip_casts(ev['lhs'])
+            if l.get('k') == 'mem' and l['f'] == 'used_arch':
+                n += 1
+                p5.check(cf.evalc(ev.get('rhs') or {}) == want, '%s:used_arch' % tu.split('__')[0], ev['loc'],
+                         '%s records used_arch = %s, not IMB_ARCH_%s: a re-attached manager gets the handlers of another architecture' % (
+                             f.name, cf.render(ev.get('rhs')) if ev.get('rhs') else '?', arch.upper()))
+        if not n:
+            p5.bad('%s:used_arch' % tu.split('__')[0], f.loc, '%s never records used_arch' % f.name)
     inits.rule_handlers(chk, P, 'P2a', 'P2b', 'P2c')
     inits.rule_no_image_address(chk, P)
     rule_asm_image_stores(chk)
